@@ -633,6 +633,47 @@ pub fn run(args: &Args) {
             out::viol(&format!("C09/panic/huge/{}", panic_sig(&p)), J::s(p));
         }
     }
+    // EVERY page of a bitmap with 2^32 (+-64, and 2^33) pages dirty at the same time (a count of dirty
+    // pages kept in 32 bits wraps exactly there): marked by 16 threads, harvested once; the
+    // harvest must return all of them and leave nothing behind
+    if args.flag("alldirty") && !cfg!(miri) {
+        let r0 = guarded(|| {
+            for pages in [(1usize << 32) - 64, 1 << 32, (1 << 32) + 64, 1 << 33] {
+                let b = Arc::new(AtomicBitmap::new(pages, NonZeroUsize::new(1).unwrap()));
+                let nthreads = 16usize;
+                let chunk = (pages / nthreads / 64 + 1) * 64;
+                let hs: Vec<_> = (0..nthreads)
+                    .map(|t| {
+                        let b = b.clone();
+                        std::thread::spawn(move || {
+                            let s0 = t * chunk;
+                            if s0 < pages {
+                                b.set_addr_range(s0, chunk.min(pages - s0));
+                            }
+                        })
+                    })
+                    .collect();
+                for h in hs {
+                    let _ = h.join();
+                }
+                let all_set = [0usize, 1, 63, 64, pages / 2, pages - 2, pages - 1].iter().all(|p| b.is_bit_set(*p));
+                let words = b.get_and_reset();
+                let reported: u64 = words.iter().map(|w| w.count_ones() as u64).sum();
+                let left = [0usize, 1, 63, 64, pages / 2, pages - 2, pages - 1].iter().filter(|p| b.is_bit_set(**p)).count();
+                let again: u64 = b.get_and_reset().iter().map(|w| w.count_ones() as u64).sum();
+                if !all_set || reported != pages as u64 || left != 0 || again != 0 {
+                    out::viol("C09/all-dirty/harvest-of-a-completely-dirty-bitmap", jobj! {"pages" => pages, "probed_pages_set_before" => all_set, "pages_reported_by_get_and_reset" => reported, "probed_pages_still_set_after" => left, "pages_reported_by_a_second_harvest" => again});
+                    return;
+                }
+                out::key(&format!("all-dirty|{}", if pages == 1 << 32 { "2^32".to_string() } else if pages == 1 << 33 { "2^33".to_string() } else if pages < 1 << 32 { "2^32-64".to_string() } else { "2^32+64".to_string() }), true);
+                out::eval(1);
+                out::count("all_dirty_pages_harvested", pages as i128);
+            }
+        });
+        if let Err(p) = r0 {
+            out::viol(&format!("C09/panic/all-dirty/{}", panic_sig(&p)), J::s(p));
+        }
+    }
     // page-count thresholds (auxiliary structures may appear above 2^12 / 2^16 / 2^18 / 2^20 pages):
     // bitmaps created just below / above a threshold, and small bitmaps with marks that are
     // ENLARGED across it, then harvested
